@@ -281,6 +281,9 @@ def gen_run(seed: int, tier: str, sub: str) -> dict:
         'opcode': r.random() < 0.3,
         'hot_bias': r.choice([0.0, 0.2, 0.6]),
         'starve': r.choice([0.0, 0.0, 0.3, 0.7]),
+        # whether calls with the same argument description receive the very same Python objects
+        # (a caller passing one list to many calls, also from several threads: nobody may change it)
+        'share_args': r.choice(['none', 'none', 'thread', 'all']),
         'nops': r.randint(3, 10 if tier == 'quick' else 14),
         'faults': sub == 'faults',
     }
@@ -494,11 +497,19 @@ def execute_run(run: dict) -> dict:
     # arguments are built before any simulated thread starts: constructing them is the caller's
     # business (it runs library code: rounding a Fraction), not part of the evaluation under test
     prebuilt = {}
+    shared_objs: dict = {}
+    share = cfg.get('share_args', 'none')
     for t_, ops_ in enumerate(run['threads']):
         for j_, op_ in enumerate(ops_):
             if op_['op'] == 'call':
+                sk = None if share == 'none' else (json.dumps(op_['args']) if share == 'all' else (t_, json.dumps(op_['args'])))
+                if sk is not None and sk in shared_objs:
+                    prebuilt[(t_, j_)] = shared_objs[sk]
+                    continue
                 memo_: dict = {}
                 prebuilt[(t_, j_)] = [V.build_arg(a, memo_) for a in op_['args']]
+                if sk is not None:
+                    shared_objs[sk] = prebuilt[(t_, j_)]
 
     def body(sc: Scheduler, i: int):
         own_rt = fp.BytecodeInterpreter()
